@@ -469,9 +469,10 @@ PlPushSteal(t) ==         \* stealIdx < numStealRings_ && stealRings_[stealIdx].
           THEN Commit([S EXCEPT !.steal[si] = Append(@, l.tid)], t, Goto([l EXCEPT !.tgt = si], "pl", "TpSetStealBit"), G)
           ELSE Commit(S, t, PlFallback(l), G)
 
-PlSetStealBit(t) ==
+PlSetStealBit(t) ==      \* then waiterFor(claimed thread).bumpAndWakeAll(): unconditional re-wake
   /\ At(t, "pl", "TpSetStealBit")
-  /\ Commit([S EXCEPT !.smask = @ \cup {L[t].tgt}], t, OpDone(t, L[t]), G)
+  /\ Commit([S EXCEPT !.smask = @ \cup {L[t].tgt}], t,
+            Goto(Push([L[t] EXCEPT !.g = L[t].res \div GS, !.wn = 1000], "OpDone"), "bw", "EwBump"), G)
 
 \* ------------------------------------------------------------------ scheduleBulk (central queue)
 RECURSIVE RanAll(_, _)
